@@ -499,4 +499,25 @@ def c05_cross_types(seed, n):
     return {"violates": False, "cases": cases}
 
 
-CALLS = {"c05_digest_bytes": c05_digest_bytes, "c05_iadd": c05_iadd, "c05_history_pair": c05_history_pair, "c05_grouped_assign": c05_grouped_assign, "c05_naive_own_class": c05_naive_own_class, "c05_nonintegral": c05_nonintegral, "c05_json_writable": c05_json_writable, "c05_cross_value": c05_cross_value, "c05_assign": c05_assign, "c05_expect": c05_expect, "c05_range": c05_range, "c05_outcome": c05_outcome, "c05_cross_types": c05_cross_types, "c05_digest": c05_digest, "c05_legacy_list": c05_legacy_list, "c05_list_pair": c05_list_pair, "c05_init": c05_init, "c05_replace": c05_replace, "c05_capture": c05_capture, "c05_decode": c05_decode}
+
+def c05_naive(src, display="UTC"):
+    """run in a child process with FLOW_RECORD_TZ set BEFORE the package is imported (the setting is read at import time)"""
+    import subprocess
+    import sys
+
+    tz = {"UTC": "UTC", "Europe/Amsterdam": "Europe/Amsterdam", "a fixed offset of -07:00": "Etc/GMT+7", "no display zone": "NONE"}[display]
+    code = (
+        "import datetime, sys\n"
+        "DT = datetime.datetime\n"
+        "from flow.record import RecordDescriptor\n"
+        f"v = {src}\n"
+        "D = RecordDescriptor('c05/ts', [('datetime', 'x'), ('datetime[]', 'l')])\n"
+        "r = D(x=v, l=[v]); r2 = D(); r2.x = v\n"
+        "want = v if isinstance(v, DT) else DT.fromisoformat(v.decode() if isinstance(v, bytes) else v)\n"
+        "bad = [repr(t) for t in (r.x, r.l[0], r2.x) if t.utcoffset() != datetime.timedelta(0) or t.replace(tzinfo=None) != want]\n"
+        "print(bad); sys.exit(1 if bad else 0)\n"
+    )
+    p = subprocess.run([sys.executable, "-c", code], capture_output=True, text=True, env=dict(os.environ, FLOW_RECORD_TZ=tz))
+    return {"violates": p.returncode != 0, "detail": f"FLOW_RECORD_TZ={tz}: naive {src} is held as {(p.stdout + p.stderr).strip()[-300:]}"}
+
+CALLS = {"c05_naive": c05_naive, "c05_digest_bytes": c05_digest_bytes, "c05_iadd": c05_iadd, "c05_history_pair": c05_history_pair, "c05_grouped_assign": c05_grouped_assign, "c05_naive_own_class": c05_naive_own_class, "c05_nonintegral": c05_nonintegral, "c05_json_writable": c05_json_writable, "c05_cross_value": c05_cross_value, "c05_assign": c05_assign, "c05_expect": c05_expect, "c05_range": c05_range, "c05_outcome": c05_outcome, "c05_cross_types": c05_cross_types, "c05_digest": c05_digest, "c05_legacy_list": c05_legacy_list, "c05_list_pair": c05_list_pair, "c05_init": c05_init, "c05_replace": c05_replace, "c05_capture": c05_capture, "c05_decode": c05_decode}
